@@ -927,16 +927,24 @@ theorem maskPart_name (u : Bool) (byName : Table) {n : Nat} (f : CleanFacts n) :
 theorem toU32_nat {x : Nat} (h : x < 2 ^ 32) : toU32 (x : Int) = x := by
   unfold toU32; omega
 
-theorem maskPart_hex (u : Bool) (byName : Table) {i : Nat} (hi : i < 31) :
+/-- an unnamed bit is read back from its hexadecimal form: every bit by the XML/JSON readers, every
+    bit but the sign bit by `maskUnmarshalText`. -/
+theorem maskPart_hex (u : Bool) (byName : Table) {i : Nat} (hi : i < 32) (h31 : u = true → i < 31) :
     maskPart u byName (hex0x 8 (2 ^ i)) = some (2 ^ i) := by
-  have h31 : 2 ^ i < 2 ^ 31 := Nat.pow_lt_pow_right (by decide) hi
+  have h32 : 2 ^ i < 2 ^ 32 := Nat.pow_lt_pow_right (by decide) hi
   have h16 : 2 ^ i < 16 ^ 8 := by have : (16 : Nat) ^ 8 = 2 ^ 32 := by decide
                                   omega
   have hb : hexBody u (hex0x 8 (2 ^ i)) = some (fmtHex 8 (2 ^ i)) := by simp [hex0x, hexBody]
   unfold maskPart
-  rw [hb, fmtHex_of_lt h16]
-  simp only [parseInt_hexFixed (by decide : 0 < 8) h16 h31]
-  rw [toU32_nat (by omega)]
+  rw [hb]
+  cases u with
+  | false => simp only [Bool.false_eq_true, if_false]; exact parseUint_hex8 h32
+  | true =>
+    have hlt : 2 ^ i < 2 ^ 31 := Nat.pow_lt_pow_right (by decide) (h31 rfl)
+    simp only [if_true]
+    rw [fmtHex_of_lt h16]
+    simp only [parseInt_hexFixed (by decide : 0 < 8) h16 hlt]
+    rw [toU32_nat h32]
 
 theorem flagsOk_spec (byName : Table) : ∀ (names : List Nat) (k : Nat), flagsOk byName k names = true →
     ∀ j, j < names.length → names.getD j emptyName ≠ emptyName →
@@ -1054,13 +1062,13 @@ where
 
 /-- reading the parts of the bits `i … i+n-1` of `v` on top of the lower bits. -/
 theorem maskFold_parts {names : List Nat} {byName : Table} (ok : MaskOk names byName) (u : Bool)
-    {v : Nat} (hv : v < 2 ^ 31) : ∀ (n i acc : Nat), acc < 2 ^ i →
+    {v : Nat} (h31 : u = true → v < 2 ^ 31) : ∀ (n i acc : Nat), i + n ≤ 32 → acc < 2 ^ i →
     maskFold u byName (maskParts names v n i) acc = some (acc + v / 2 ^ i % 2 ^ n * 2 ^ i) := by
   intro n
   induction n with
-  | zero => intro i acc _; simp [maskParts, maskFold, Nat.mod_one]
+  | zero => intro i acc _ _; simp [maskParts, maskFold, Nat.mod_one]
   | succ n ih =>
-    intro i acc hacc
+    intro i acc hin hacc
     have hlt2 : v / 2 ^ i % 2 < 2 := Nat.mod_lt _ (by decide)
     have hpow : (2 : Nat) ^ (i + 1) = 2 ^ i * 2 := by rw [Nat.pow_succ]
     rw [window_succ]
@@ -1071,7 +1079,7 @@ theorem maskFold_parts {names : List Nat} {byName : Table} (ok : MaskOk names by
       have hbit : v / 2 ^ i % 2 = 0 := by
         simp only [bitSet, beq_eq_false_iff_ne, ne_eq] at hb; omega
       simp only [hw, Bool.false_eq_true, if_false]
-      rw [ih (i + 1) acc (by omega), hbit]
+      rw [ih (i + 1) acc (by omega) (by omega), hbit]
       simp
     | true =>
       have hbit : v / 2 ^ i % 2 = 1 := by simpa [bitSet] using hb
@@ -1088,62 +1096,59 @@ theorem maskFold_parts {names : List Nat} {byName : Table} (ok : MaskOk names by
         · rename_i hlt
           rw [maskPart_name u byName (ok.clean i hlt), ok.flags i hlt]
         · have hge := bitSet_ge hb
-          have hi : i < 31 := by
-            apply Classical.byContradiction
-            intro hn
-            have : 2 ^ 31 ≤ 2 ^ i := Nat.pow_le_pow_right (by decide) (by omega)
-            omega
-          exact maskPart_hex u byName hi
+          refine maskPart_hex u byName (by omega) ?_
+          intro hu
+          have hv := h31 hu
+          apply Classical.byContradiction
+          intro hn
+          have : 2 ^ 31 ≤ 2 ^ i := Nat.pow_le_pow_right (by decide) (by omega)
+          omega
       simp only [hw, if_true, maskFold, hpart]
-      rw [lor_pow hacc, ih (i + 1) (acc + 2 ^ i) (by omega), hbit]
+      rw [lor_pow hacc, ih (i + 1) (acc + 2 ^ i) (by omega) (by omega), hbit]
       congr 1
       omega
 
 /-- the fold over all 32 positions recovers `v`. -/
 theorem maskFold_all {names : List Nat} {byName : Table} (ok : MaskOk names byName) (u : Bool)
-    {v : Nat} (hv : v < 2 ^ 31) : maskFold u byName (maskParts names v 32 0) 0 = some v := by
-  rw [maskFold_parts ok u hv 32 0 0 (by decide)]
-  have : v % 2 ^ 32 = v := Nat.mod_eq_of_lt (by omega)
+    {v : Nat} (hv : v < 2 ^ 32) (h31 : u = true → v < 2 ^ 31) :
+    maskFold u byName (maskParts names v 32 0) 0 = some v := by
+  rw [maskFold_parts ok u h31 32 0 0 (by decide) (by decide)]
+  have : v % 2 ^ 32 = v := Nat.mod_eq_of_lt hv
   simp [this]
 
-/-! ## bit masks: the three round trips (every value below 2^31; JSON: except 0) -/
+/-! ## bit masks: the three round trips
+    XML and JSON: EVERY 32-bit value; `MarshalText`/`UnmarshalText`: every value without bit 31. -/
 
 theorem maskXml_roundtrip {names : List Nat} {byName : Table} (ok : MaskOk names byName)
-    {v : Nat} (hv : v < 2 ^ 31) :
+    {v : Nat} (hv : v < 2 ^ 32) :
     maskFromTextXml byName (maskToText names [32] v) = some v := by
   have ht := maskParts_toks ok v 32 0 (by decide)
   unfold maskFromTextXml
   rw [maskToText_eq, fields_joinSep _ ht, map_trim_toks ht]
-  exact maskFold_all ok false hv
-
-theorem maskParts_ne_nil (names : List Nat) {byName : Table} (ok : MaskOk names byName) {v : Nat}
-    (h0 : v ≠ 0) (hv : v < 2 ^ 31) : maskParts names v 32 0 ≠ [] := by
-  intro e
-  have := maskFold_all ok false hv
-  rw [e] at this
-  simp only [maskFold, Option.some.injEq] at this
-  exact h0 this.symm
+  exact maskFold_all ok false hv (by simp)
 
 theorem maskJson_roundtrip {names : List Nat} {byName : Table} (ok : MaskOk names byName)
-    {v : Nat} (h0 : v ≠ 0) (hv : v < 2 ^ 31) :
+    {v : Nat} (hv : v < 2 ^ 32) :
     maskFromTextJson byName (maskToText names [124] v) = some v := by
   have ht := maskParts_toks ok v 32 0 (by decide)
-  have hne := maskParts_ne_nil names ok h0 hv
+  have hall := maskFold_all ok false hv (by simp)
   unfold maskFromTextJson
   rw [maskToText_eq]
   cases hp : maskParts names v 32 0 with
-  | nil => exact absurd hp hne
+  | nil =>
+    rw [hp] at hall
+    simpa [joinSep, splitOn, splitOnAux, trim, maskFold] using hall
   | cons p ps =>
-    rw [hp] at ht
+    rw [hp] at ht hall
     have : splitOn 124 (joinSep [124] (p :: ps)) = p :: ps := split_join ps p ht
-    rw [this, map_trim_toks ht, ← hp]
-    exact maskFold_all ok false hv
+    rw [this, map_trim_toks ht, filter_nonempty_toks ht]
+    exact hall
 
 theorem maskUnmarshal_roundtrip {names : List Nat} {byName : Table} (ok : MaskOk names byName)
     {v : Nat} (hv : v < 2 ^ 31) :
     maskFromTextUnmarshal byName (maskToText names [32, 124, 32] v) = some v := by
   have ht := maskParts_toks ok v 32 0 (by decide)
-  have hall := maskFold_all ok true hv
+  have hall := maskFold_all ok true (by omega) (fun _ => hv)
   unfold maskFromTextUnmarshal
   rw [maskToText_eq]
   cases hp : maskParts names v 32 0 with
